@@ -569,7 +569,7 @@ def run(tier, seed):
         "rule": ("one evaluation = one round trip (specification, rule object, pack, strategy, bijection) or one "
                  "strategy equality comparison; specifications are deduplicated by JSON, rule objects by (form, JSON) "
                  "within a specification; every round trip is non-trivial"),
-        "exhaustive": tier == "quick",
+        "exhaustive": False,
         "contracts_evaluated": dict(counts),
         "samples": samples[::step][:6],
         "violations": _dedupe(viols),
